@@ -21,9 +21,14 @@ def multisets(vals, kmin, kmax):
             yield list(c)
 
 
-@core.guarded(lambda maxd, rpos, qpos, slack, shift, start, rev, *a: dict(maxDistance=maxd, reference=rpos, query=qpos, slack=slack, shift=shift, start=start, reverse=rev))
-def check_case(maxd, rpos, qpos, slack, shift, start, rev, acc, engine=None):
+@core.guarded(lambda maxd, rpos, qpos, slack, shift, start, rev, acc=None, engine=None, history=None: dict(maxDistance=maxd, reference=rpos, query=qpos, slack=slack, shift=shift, start=start, reverse=rev, history=history))
+def check_case(maxd, rpos, qpos, slack, shift, start, rev, acc, engine=None, history=None):
     eng = engine or AlignerEngine(maxd)
+    if history:
+        # operation sequence: earlier calls on the SAME engine (same molecule id!) must not influence this one
+        for hq, hslack, hshift, hrev in history:
+            eng.align(OpticalMap(1, (rpos[-1] if rpos else 0) + 2, rpos), OpticalMap(2, hq[-1] + 1 + hslack, hq, shift=hshift), start,
+                      start + hq[-1] + 1 + hslack, hrev)
     q = OpticalMap(2, qpos[-1] + 1 + slack, qpos, shift=shift)
     ref = OpticalMap(1, (rpos[-1] if rpos else 0) + 2, rpos)
     end = start + q.length
@@ -102,7 +107,7 @@ def check_case(maxd, rpos, qpos, slack, shift, start, rev, acc, engine=None):
                    tuple(ur), tuple(x - shift for x in uq)))
         coincident = len(set(rpos)) < len(rpos) or len(set(qpos)) < len(qpos)
         if coincident or exact or tie or not rlab:
-            acc.nontriv((maxd, tuple(rpos), tuple(qpos), slack, shift, start, rev))
+            acc.nontriv((maxd, tuple(rpos), tuple(qpos), slack, shift, start, rev, str(history)))
         acc.classes['pairs=%d' % min(len(pairs), 4)] += 1
         if coincident:
             acc.classes['coincident-labels'] += 1
@@ -112,7 +117,7 @@ def check_case(maxd, rpos, qpos, slack, shift, start, rev, acc, engine=None):
             acc.classes['equidistant-tie'] += 1
         if not rlab:
             acc.classes['empty-window'] += 1
-        case = dict(maxDistance=maxd, reference=rpos, query=qpos, slack=slack, shift=shift, start=start, reverse=rev)
+        case = dict(maxDistance=maxd, reference=rpos, query=qpos, slack=slack, shift=shift, start=start, reverse=rev, history=history)
         for f in found:
             acc.viol(f[0], case, f[1], f[2], f[3])
         acc.sample(case)
@@ -148,16 +153,40 @@ class Lattice(core.Layer):
                         for start in self.starts:
                             for rev in (False, True):
                                 acc.seq += 1
-                                check_case(maxd, rpos, qpos, slack, shift, start, rev, acc, eng)
+                                check_case(maxd, rpos, qpos, slack, shift, start, rev, acc)
 
     def replay(self, case):
         return check_case(case['maxDistance'], case['reference'], case['query'], case['slack'], case['shift'], case['start'],
-                          case['reverse'], None)
+                          case['reverse'], None, None, [tuple(h) for h in case['history']] if case.get('history') else None)
+
+
+class Sequences(Lattice):
+    """two consecutive calls on one engine: (query A) then (query B, same molecule id) - the second result is judged"""
+
+    def __init__(self, name, rvals, rmax, qvals, qmax, starts, maxds, optional=False):
+        Lattice.__init__(self, name, rvals, rmax, qvals, qmax, starts, maxds, optional)
+        self.rule = 'every ordered pair of %d queries x shifts x strands as a two-call sequence on one engine, %d reference multisets x %d starts x %d maxDistance' % (
+            len(self.queries), len(self.refs), len(starts), len(maxds))
+        self.bounds = dict(self.bounds, sequence_length=2)
+
+    def run_block(self, b, acc):
+        maxd = self.maxds[b // len(self.rchunks)]
+        for rpos in self.rchunks[b % len(self.rchunks)]:
+            for qa in self.queries:
+                for qb in self.queries:
+                    if qa == qb:
+                        continue
+                    for sha, shb in ((0, 0), (2, 2), (0, 2)):
+                        for reva, revb in ((False, False), (True, True), (False, True)):
+                            for start in self.starts:
+                                acc.seq += 1
+                                check_case(maxd, rpos, qb, 0, shb, start, revb, acc, None, [(qa, 0, sha, reva)])
 
 
 def layers(tier, seed):
     quick = Lattice('R<=4,Q<=3', list(range(0, 7)), 4, list(range(0, 5)), 3, (-1, 0, 1, 3), (0, 1, 2))
+    seq = Sequences('seq2:R<=2,Q<=2', list(range(0, 5)), 2, list(range(0, 5)), 2, (0, 1), (0, 1, 2))
     if tier == 'quick':
-        return [quick]
-    return [quick,
+        return [quick, seq]
+    return [quick, seq, Sequences('seq2:R<=3,Q<=3', list(range(0, 5)), 3, list(range(0, 5)), 3, (-1, 0, 1), (1, 2)),
             Lattice('R<=5,Q<=4', list(range(0, 8)), 5, list(range(0, 6)), 4, (-2, -1, 0, 1, 2, 3, 4), (0, 1, 2, 3), optional=True)]
